@@ -269,3 +269,43 @@ package handshake
 //@ ensures frame-no-psk: m.KeyExchangeAlgorithm & 2 == 0 ==> len(m.IdentityHint) == old(len(m.IdentityHint)) && (len(m.IdentityHint) > 0 ==> sameArray(m.IdentityHint, old(m.IdentityHint)))
 //@ ensures input-unchanged: forall(0, len(data), func(i int) bool { return data[i] == old(data[i]) })
 //@ end
+
+// RFC 9147 9: struct { ConnectionId cids<0..2^16-1>; ConnectionIdUsage usage; } NewConnectionId, with
+// opaque ConnectionId<0..2^8-1>. The message body is exactly the 2-byte list length, the list and one
+// usage byte: a body that is longer or shorter than the declared length is rejected (no trailing bytes),
+// every element must fit in the declared list, usage is cid_immediate(0) or cid_spare(1).
+
+//@ func MessageNewConnectionID.Unmarshal
+//@ ensures short: len(data) < 3 ==> result != nil
+//@ ensures truncated: len(data) >= 3 && len(data) < 3 + BE16(data, 0) ==> result != nil
+//@ ensures trailing-bytes-rejected: len(data) >= 3 && len(data) > 3 + BE16(data, 0) ==> result != nil
+//@ ensures accepted-exact-length: result == nil ==> len(data) == 3 + BE16(data, 0)
+//@ ensures bad-usage-rejected: len(data) >= 3 && data[len(data)-1] > 1 ==> result != nil
+//@ ensures usage: result == nil ==> byte(m.Usage) == data[len(data)-1]
+//@ ensures empty-list: result == nil && BE16(data, 0) == 0 ==> len(m.CIDs) == 0
+//@ ensures empty-list-ok: len(data) == 3 && data[0] == 0 && data[1] == 0 && data[2] <= 1 ==> result == nil
+//@ ensures first-element-overrun-rejected: len(data) >= 3 && BE16(data, 0) > 0 && int(data[2]) > BE16(data, 0) - 1 ==> result != nil
+//@ ensures error-changes-nothing: result != nil ==> m.Usage == old(m.Usage) && len(m.CIDs) == old(len(m.CIDs))
+//@ ensures input-unchanged: forall(0, len(data), func(i int) bool { return data[i] == old(data[i]) })
+//@ loop #1: in-list: sameArray(cidsData, data) && offsetOf(cidsData) >= offsetOf(data) + 2 && offsetOf(cidsData) + len(cidsData) == offsetOf(data) + 2 + cidsLength
+//@ loop #1: first: offsetOf(cidsData) == offsetOf(data) + 2 || (len(data) >= 3 && offsetOf(cidsData) >= offsetOf(data) + 3 + int(data[2]))
+//@ loop #1: nothing-written: m.Usage == old(m.Usage) && len(m.CIDs) == old(len(m.CIDs))
+//@ loop #1: count: (offsetOf(cidsData) == offsetOf(data) + 2) == (len(cids) == 0)
+//@ loop #1: input-unchanged: forall(0, len(data), func(i int) bool { return data[i] == old(data[i]) })
+//@ end
+
+// Encoding side. NOT CHECKED (engine limit: no sum over a slice of slices): declared list length == sum of
+// (1 + len(cid)), hence also len(result0) == 3 + declared length. Checked: usage validation, the usage byte is the
+// last byte, an empty list is encoded as 00 00 usage, an over-long element is refused.
+//@ func MessageNewConnectionID.Marshal
+//@ ensures bad-usage-rejected: old(m.Usage) > 1 ==> result1 != nil && result0 == nil
+//@ ensures long-cid-rejected: old(m.Usage) <= 1 && len(m.CIDs) > 0 && len(m.CIDs[0]) > 255 ==> result1 != nil
+//@ ensures empty-list: old(m.Usage) <= 1 && len(m.CIDs) == 0 ==> result1 == nil && len(result0) == 3 && result0[0] == 0 && result0[1] == 0 && result0[2] == byte(m.Usage)
+//@ ensures usage-last: result1 == nil ==> len(result0) >= 3 && result0[len(result0)-1] == byte(m.Usage)
+//@ ensures frame: m.Usage == old(m.Usage) && len(m.CIDs) == old(len(m.CIDs))
+//@ loop #1: bounded: 0 <= cidsLength && cidsLength <= 65535 && (idx == 0 ==> cidsLength == 0)
+//@ loop #1: first-fits: idx > 0 ==> len(m.CIDs[0]) <= 255
+//@ loop #1: frame: m.Usage == old(m.Usage) && len(m.CIDs) == old(len(m.CIDs))
+//@ loop #2: grows: len(out) >= 2 && (idx == 0 ==> len(out) == 2 && out[0] == byte(cidsLength >> 8) && out[1] == byte(cidsLength))
+//@ loop #2: frame: m.Usage == old(m.Usage) && len(m.CIDs) == old(len(m.CIDs))
+//@ end
